@@ -121,7 +121,7 @@ def positional_contracts(I, sysd, st, c):
     I.opaque[(PC, 'impulse')] = impulse
 
 
-def run_step(U, backend, build, widen=12):
+def run_step(U, backend, build, widen=12, cut_points=True):
   I = new_interp(U.repo)
   I.widen_at = widen
   scenario.WIDEN[0] = widen if widen is not None else 10 ** 9
@@ -135,7 +135,7 @@ def run_step(U, backend, build, widen=12):
   I.contracts[(K, 'world_to_joint')] = lambda s, x, xd: (T('jn', (n,)), M('jdn', (n,)), T('apn', (n,)), T('acn', (n,)))
   I.contracts[(K, 'inverse')] = lambda s, j, jd: (symarr('qn', (nq,)), symarr('qdn', (nv,)))
   I.contracts[('brax.com', 'inv_inertia')] = lambda s, x: symarr('Iinv', (n, 3, 3))
-  if backend == 'positional':
+  if backend == 'positional' and cut_points:
     positional_contracts(I, sysd, st, c)
   out = I.apply(fn('brax.%s.pipeline' % backend, 'step'), [sysd, st, act], {})
   m = st.f['mass']
@@ -199,16 +199,30 @@ def momentum(U, rep, tier):
            ('spring', 'two free bodies, two contacts', two_body_system),
            ('positional', 'chain f-1-1, actuators, limits', chain_system),
            ('positional', 'two free bodies, two contacts', two_body_system)]
+  import os
+  seed0 = int(os.environ.get('VERIF_SEED', '0') or 0)
+  trials = 3 if tier == 'quick' else 12
+  finite = lambda nm: 0 if nm.kind == 'isnan' else None
   for backend, name, build in cases:
     f = U.func('brax.%s.pipeline.step' % backend)
-    verdict, got, want, I, w = escalate(lambda w_: run_step(U, backend, build, w_))
-    if verdict is None:
-      raise AnalysisError('C04 %s [%s]: normal forms differ under widening and the exact evaluation did not '
-                          'finish within its budget (inconclusive)' % (backend, name))
-    rep.check(verdict, 'R4.1', '%s.pipeline.step momentum law [%s]' % (backend, name),
-              lambda: 'total linear momentum after the step is not previous + M g dt: ' + diff_report(got, want),
-              where=f.where(), construct='sum m xd_i\'.vel == sum m xd_i.vel + (sum m) g dt  (widening %r)' % w)
-    rep.stat('interpreter_calls_%s_%s' % (backend, build.__name__), I.calls)
+    bad = None
+    calls = 0
+    for t in range(trials):
+      avn.field_mode(seed0 * 1000 + t, decide=finite)
+      try:
+        got, want, I = run_step(U, backend, build, None, cut_points=False)
+        calls += I.calls
+        if not same(got, want):
+          bad = t
+          break
+      finally:
+        avn.exact_mode()
+    rep.check(bad is None, 'R4.1', '%s.pipeline.step momentum law [%s]' % (backend, name),
+              'total linear momentum after the step is not previous + M g dt (random-interpretation trial %s of the '
+              'whole step: the two sides differ in GF(p), hence as polynomials)' % bad,
+              where=f.where(), construct="sum m xd_i'.vel == sum m xd_i.vel + (sum m) g dt  [%d GF(p) trials, real kernels]" % trials)
+    rep.stat('interpreter_calls_%s_%s' % (backend, build.__name__), calls)
+  rep.stat('random_interpretation_trials', trials)
 
 
 class _Timeout(Exception):
